@@ -391,6 +391,15 @@ func BuildArgv(g *GenSpec, w *World, root, top string) (argv []string, dir strin
 		}
 	default:
 		dir = root
+		if strings.HasPrefix(g.Cwd, "sublink:") {
+			// `-cwd plink` (relative), plink being a symbolic link to a package directory
+			// inside the module: the module root is a parent of the directory, not of the link
+			dir = top
+			link := filepath.Join(top, "plink")
+			_ = os.Remove(link)
+			_ = os.Symlink(filepath.Join(root, filepath.FromSlash(strings.TrimPrefix(g.Cwd, "sublink:"))), link)
+			argv = append(argv, "-cwd", "plink")
+		}
 		if strings.HasPrefix(g.Cwd, "sub:") {
 			dir = filepath.Join(root, filepath.FromSlash(strings.TrimPrefix(g.Cwd, "sub:")))
 		}
@@ -420,9 +429,9 @@ func BuildArgv(g *GenSpec, w *World, root, top string) (argv []string, dir strin
 	if pats == nil {
 		pats = w.Patterns
 	}
-	if strings.HasPrefix(g.Cwd, "sub:") {
+	if strings.HasPrefix(g.Cwd, "sub:") || strings.HasPrefix(g.Cwd, "sublink:") {
 		// patterns are given relative to the invocation directory
-		sub := strings.TrimPrefix(g.Cwd, "sub:")
+		sub := strings.TrimPrefix(strings.TrimPrefix(g.Cwd, "sub:"), "sublink:")
 		rel := make([]string, 0, len(pats))
 		for _, p := range pats {
 			if strings.HasPrefix(p, "./") || p == "." {
